@@ -7,6 +7,7 @@ opportunity whose capacity test is an adversarial Bool (`Sched.want`) and whose 
 `WAct` (accept all | accept n bytes and fail).
 -/
 import JsonV.Lemmas.FlushFull
+import JsonV.Lemmas.FlushDetect
 import JsonV.Gen.Constants
 import JsonV.Gen.Lits
 
@@ -390,6 +391,47 @@ example :
       [0x7b, 0x22, 0x61, 0x22, 0x3a, 0x31, 0x2c, 0x22, 0x73, 0x22, 0x3a, 0x22, 0x78, 0x22, 0x7d, 0x0a] ∧
     (runD ({}, false) (ops.map (fun o => (o, ⟨true, .fail 3⟩)))).1.delivered.length > 6 := by decide
 
+/-! ### empty_detect against the RFC 8259 grammar (Spec/Grammar.lean, slice C01) -/
+
+/-- `empty_detect_full`: after `[,] ws "name" : ws value` where the value is ANY JSON value of the grammar (any
+options, any depth, with interior whitespace or not), UnwriteEmptyObjectMember reports true exactly when the value
+is `null`, `""`, `{}` or `[]`. -/
+theorem empty_detect_full (o : Spec.Grammar.GOpts) (md : Nat) (key : Bytes → Bytes) (d : Nat)
+    (pre sep ws1 name ws2 val : Bytes) (h1 : WsOnly ws1) (h2 : WsOnly ws2) (hn : QuotesEscaped name)
+    (hs : MemberSep pre sep) (hv : Spec.Grammar.JValue o md key d val) :
+    (∃ r, unwriteEmptyBytes (pre ++ sep ++ ws1 ++ (0x22 :: name ++ [0x22]) ++ [0x3a] ++ ws2 ++ val) = some (r, true)) ↔
+      EmptyText val := by
+  constructor
+  · rintro ⟨r, hr⟩
+    have hne := emptyLenR_of_unwrite_true hr
+    rw [List.reverse_append] at hne
+    exact emptyText_of_jvalue hv _ hne
+  · intro he
+    exact ⟨pre, empty_detect_partial pre sep ws1 name ws2 val h2 h1 hn hs he⟩
+
+-- hypotheses satisfiable with a non-empty value: after `{"a":1` nothing is retracted
+example : ¬ ∃ r, unwriteEmptyBytes (([0x7b] : Bytes) ++ [] ++ [] ++ (0x22 :: [0x61] ++ [0x22]) ++ [0x3a] ++ [] ++ [0x31]) = some (r, true) := by
+  have hv : Spec.Grammar.JValue ⟨true, false⟩ 10000 id 1 [0x31] :=
+    Spec.Grammar.JValue.num 1 [0x31] (Spec.Grammar.JNumber.mk [] [0x31] [] [] (Or.inl rfl)
+      (Spec.Grammar.JInt.nonzero 0x31 [] (by unfold Spec.Grammar.Digit19; decide) (by intro c hc; cases hc)) Spec.Grammar.JFrac.none Spec.Grammar.JExp.none)
+  rw [empty_detect_full ⟨true, false⟩ 10000 id 1 [0x7b] [] [] [0x61] [] [0x31] (by intro c hc; cases hc) (by intro c hc; cases hc)
+    (by intro l1 l2 e; cases l1 <;> simp at e)
+    (MemberSep.first [] 0x7b (by decide) (by decide) (by decide)) hv]
+  intro h; cases h
+
+/-- The classification behind it, in terms of avoidFlush's two-byte test: a JSON value ending in `ll`, `""`, `{}`,
+`[]` is one of the four empty encodings or a string ending in an escaped quote (`…\""`), which is what the code's
+extra backslash test is for. -/
+theorem jvalue_ends_classification (o : Spec.Grammar.GOpts) (md : Nat) (key : Bytes → Bytes) (d : Nat) (v : Bytes)
+    (hv : Spec.Grammar.JValue o md key d v) (he : endsEmptyR v.reverse = true) :
+    EmptyText v ∨ ∃ q, v = q ++ [0x5c, 0x22, 0x22] :=
+  JsonV.Model.Flush.jvalue_ends_classification hv he
+
+-- the second alternative is real: the JSON string `"\""` (one escaped quote) ends in `""`
+example : endsEmptyR ([0x22, 0x5c, 0x22, 0x22] : Bytes).reverse = true ∧ ¬ EmptyText [0x22, 0x5c, 0x22, 0x22] := by
+  refine ⟨by decide, ?_⟩
+  intro h; cases h
+
 /-! ### full statements that are not proved (validated by the harness only) -/
 
 /-- Beyond the calling discipline: UnwriteEmptyObjectMember called at moments where the marshalers never call it
@@ -398,13 +440,5 @@ sequence in which the call directly follows the accepted call that completed the
 def flush_indep_undisciplined_full : Prop :=
   ∀ (omitNL : Bool) (l₁ l₂ : List (Op × Sched)), l₁.map Prod.fst = l₂.map Prod.fst → (∀ p ∈ l₁, SaneCall p.1) →
     (run { omitNL := omitNL } l₁).total = (run { omitNL := omitNL } l₂).total
-
-/-- `empty_detect`: after `name : value` for a well-formed JSON value (`JValue`, the grammar of another slice),
-UnwriteEmptyObjectMember reports true exactly when the value is `null`, `""`, `{}` or `[]`.
-Proved above: the "if" direction (`empty_detect_partial`). -/
-def empty_detect_full (JValue : Bytes → Prop) : Prop :=
-  ∀ (pre sep ws1 name ws2 val : Bytes), WsOnly ws1 → WsOnly ws2 → QuotesEscaped name → MemberSep pre sep → JValue val →
-    ((∃ r, unwriteEmptyBytes (pre ++ sep ++ ws1 ++ (0x22 :: name ++ [0x22]) ++ [0x3a] ++ ws2 ++ val) = some (r, true)) ↔
-      EmptyText val)
 
 end JsonV.Props.C07
